@@ -4,7 +4,7 @@ trailing comma, calls may not. Works on token kinds obtained from the implementa
 stream (classification is C10's concern): set-of-end-positions backtracking with memoisation,
 so it decides sentence-hood independently of both parsers' control flow."""
 import functools, subprocess
-from .proto import hx, unhx, run_impl
+from .proto import run_model, hx, unhx, run_impl
 
 PREFIX = {"-", "+", "!", "not", "AND", "OR"}
 POSTFIX = {"++", "--"}
@@ -141,7 +141,10 @@ _cache = {}
 
 
 def tokens_of(texts):
-    lines = run_impl(["TOK\t" + hx(s) for s in texts], timeout=600)
+    # the *model's* tokenizer reads the text (the documented lexical rules: EE/Model/Tokenizer.lean, proved in C10), not the
+    # implementation's: an input accepted only because the implementation's tokenizer dropped or re-classified a character
+    # is then not a sentence
+    lines = run_model(["TOK\t" + hx(s) for s in texts], timeout=1200)
     out = []
     for l in lines:
         f = l.split("\t")
